@@ -10,7 +10,8 @@
 
     This file contains only statements closed by [exact] and their [Print Assumptions]. *)
 From Coq Require Import List NArith ZArith.
-From ApiFu Require Import Base.Sexp Syn.Ast Syn.ParserModel Syn.Printer Syn.ParserProofs Syn.Relabel.
+From ApiFu Require Import Base.Sexp Syn.Ast Syn.ParserModel Syn.Printer Syn.ParserProofs Syn.Relabel
+     Syn.FrontEnd Syn.FrontEndSpec Syn.FrontEndProofs Syn.PositionMethods Syn.PositionProofs.
 Import ListNotations.
 
 (** Nothing outside the grammar, nothing truncated, every position exact: an accepted token
@@ -159,6 +160,124 @@ Theorem C06_value_sound_refuted_before_fix :
             layout_of (tokens_value v) (map st_tok [st0 KInt [49%N]; st0 KInt [50%N]]) = false.
 Proof. exact value_truncated_before_fix. Qed.
 
+(** Every Position() method of graphql/ast (Syn/Ast.v, Syn/PositionMethods.v: the model's [*_pos]
+    functions, compared with the real methods on every parsed tree) returns the position recorded
+    on the first token of the node's printed form ([first_pos]) — which [layout_of], hence
+    parse_sound, equates with the position of that token in the source. *)
+Theorem C06_position_methods_first_token :
+  (forall v, first_pos (tokens_value v) = Some (value_pos v)) /\
+  (forall t, first_pos (tokens_type t) = Some (ty_pos t)) /\
+  (forall x, first_pos (tokens_variable x) = Some (variable_pos x)) /\
+  (forall i, first_pos [e_ident i] = Some (ident_pos i)) /\
+  (forall a, first_pos (tokens_argument a) = Some (argument_pos a)) /\
+  (forall f, first_pos (e_ident (fst f) :: e_punct_ b_colon :: tokens_value (snd f)) = Some (object_field_pos f)) /\
+  (forall d, first_pos (tokens_directive d) = Some (directive_pos d)) /\
+  (forall vd, first_pos (tokens_vardef vd) = Some (vardef_pos vd)) /\
+  (forall ss, first_pos (tokens_selset ss) = Some (selset_pos ss)) /\
+  (forall s, first_pos (tokens_selection s) = Some (selection_pos s)) /\
+  (forall d, wf_definition d = true -> first_pos (tokens_definition d) = Some (definition_pos d)).
+Proof. exact position_methods_first_token. Qed.
+
+(** ** From BYTES: the parser model driven by the scanner model of property C07 (Syn/FrontEnd.v),
+    the way parser.newParser / consumeToken drive scanner.Scanner in mode 0.
+
+    [front_end bs]: the stream of consumeToken() results for the text [bs] (each token with the
+    scanner errors of its own Scan call; end position; final errors).
+    [parse_document_bytes bs] / [parse_value_bytes bs]: parser.ParseDocument / ParseValue on the
+    bytes.  [in_grammar_bytes bs d] (Syn/FrontEndSpec.v): [bs] is valid UTF-8, the lexical grammar
+    (LexSpec.spec_lex, C07) cuts it into tokens up to its end, and its Tokens — ignored ones
+    dropped — are a layout of the printed well-formed tree [d] of derivation height <= 1000;
+    the two recorded deviations of the scanner from the 2018 lexical grammar (C07: a number
+    directly followed by e/E, U+FEFF inside the text) are excluded there.
+    [inside_text bs p]: 1 <= line p <= 1 + number of line terminators of [bs], 1 <= column.
+    No hypothesis about the scanner is left in these statements. *)
+
+(** For EVERY byte string the scanner side terminates within [S (length bs)] Scan calls and hands
+    over at most one token per byte, with pairwise distinct positions lying before the end position,
+    every position and every lexical error inside the text, and no token kind unknown to the parser. *)
+Theorem C06_front_end_total : forall bs, exists r, front_end bs = Some r /\ front_facts bs r.
+Proof. exact front_end_total. Qed.
+
+(** No byte string exhausts the fuel of the composed model (scanner: [S (length bs)] calls; parser:
+    [S (number of tokens)] <= [S (length bs)]) ... *)
+Theorem C06_parse_document_bytes_total : forall bs, parse_document_bytes bs <> OOF.
+Proof. exact parse_document_bytes_total. Qed.
+
+(** ... and the only outcomes are "tree and error list" or "nil and a non-empty error list": the
+    model of ParseDocument has no panic that escapes and no non-termination, on any request text. *)
+Theorem C06_parse_document_bytes_never_panics : forall bs,
+  exists tree es, parse_document_bytes bs = Out tree es /\ (tree = None -> es <> []).
+Proof. exact parse_document_bytes_never_panics. Qed.
+
+(** Accepted without error = a document of the grammar, with exactly that tree and positions. *)
+Theorem C06_parse_bytes_accepts_exactly : forall bs d,
+  parse_document_bytes bs = Out (Some d) [] <-> in_grammar_bytes bs d.
+Proof. exact parse_bytes_accepts_exactly. Qed.
+
+(** Any text outside the grammar is rejected with at least one error. *)
+Theorem C06_parse_bytes_rejects_rest : forall bs,
+  (forall d, ~ in_grammar_bytes bs d) ->
+  exists tree es, parse_document_bytes bs = Out tree es /\ es <> [].
+Proof. exact parse_bytes_rejects_rest. Qed.
+
+(** A tree returned beside lexical errors is still the tree of the whole token stream of the text,
+    and the errors are exactly the scanner's. *)
+Theorem C06_parse_bytes_tree : forall bs d es, parse_document_bytes bs = Out (Some d) es ->
+  exists r, front_end bs = Some r /\ layout_of (tokens_document d) (map st_tok (f_toks r)) = true /\
+            wf_document d = true /\ (depth_document d <= max_recursion)%Z /\
+            es = scanner_errors (f_eof_errs r) (f_toks r).
+Proof. exact parse_bytes_tree. Qed.
+
+(** Distinct selection nodes of a parsed request have distinct positions — unconditionally. *)
+Theorem C06_parse_bytes_pos_injective : forall bs d es,
+  parse_document_bytes bs = Out (Some d) es -> NoDup (positions_document d).
+Proof. exact parse_bytes_pos_injective. Qed.
+
+(** Every reported error, lexical or syntactic, is positioned inside the text. *)
+Theorem C06_parse_bytes_errors_inside_text : forall bs tree es,
+  parse_document_bytes bs = Out tree es -> Forall (inside_text bs) es.
+Proof. exact parse_bytes_errors_inside_text. Qed.
+
+(** A rejection = the lexical errors met so far, then exactly one syntax error, at a token of the
+    text or at its end, inside the text. *)
+Theorem C06_parse_bytes_error_located : forall bs es, parse_document_bytes bs = Out None es ->
+  exists r pre p, front_end bs = Some r /\ es = pre ++ [p] /\
+    (exists rest, pre ++ rest = scanner_errors (f_eof_errs r) (f_toks r)) /\
+    (In p (token_positions (f_toks r)) \/ p = f_eof r) /\ inside_text bs p.
+Proof. exact parse_bytes_error_located. Qed.
+
+(** Two texts whose Token sequences agree in kinds and texts — whatever spaces, tabs, commas,
+    comments, line terminators or byte order mark lie between the tokens — get the same verdict and,
+    positions erased, the same tree. *)
+Theorem C06_parse_bytes_layout_insensitive : forall bs1 bs2 r1 r2 d1,
+  front_end bs1 = Some r1 -> front_end bs2 = Some r2 ->
+  Forall2 same_shape (f_toks r1) (f_toks r2) ->
+  scanner_errors (f_eof_errs r2) (f_toks r2) = [] ->
+  parse_document_bytes bs1 = Out (Some d1) [] ->
+  exists d2, parse_document_bytes bs2 = Out (Some d2) [] /\ erase_document d2 = erase_document d1.
+Proof. exact parse_bytes_layout_insensitive. Qed.
+
+(** The same on the two specifications alone: texts of the lexical grammar whose Token sequences
+    agree in kind and text ([same_token_text]) — i.e. that differ only in ignored tokens and in the
+    spelling-preserving layout — are both documents or neither, with equal trees modulo positions. *)
+Theorem C06_parse_bytes_same_tokens_same_tree : forall bs1 bs2 toks1 toks2 d1,
+  lexes_to bs1 toks1 -> lexes_to bs2 toks2 -> Forall2 same_token_text toks1 toks2 ->
+  in_grammar_bytes bs1 d1 ->
+  exists d2, in_grammar_bytes bs2 d2 /\ erase_document d2 = erase_document d1.
+Proof. exact parse_bytes_same_tokens_same_tree. Qed.
+
+(** ParseValue from bytes. *)
+Theorem C06_parse_value_bytes_total : forall bs, parse_value_bytes bs <> OOF.
+Proof. exact parse_value_bytes_total. Qed.
+
+Theorem C06_parse_value_bytes_accepts_exactly : forall bs v,
+  parse_value_bytes bs = Out (Some v) [] <-> value_in_grammar_bytes bs v.
+Proof. exact parse_value_bytes_accepts_exactly. Qed.
+
+Theorem C06_parse_value_bytes_errors_inside_text : forall bs tree es,
+  parse_value_bytes bs = Out tree es -> Forall (inside_text bs) es.
+Proof. exact parse_value_bytes_errors_inside_text. Qed.
+
 Print Assumptions C06_parse_sound.
 Print Assumptions C06_parse_roundtrip.
 Print Assumptions C06_parse_accepts_exactly.
@@ -181,3 +300,18 @@ Print Assumptions C06_roundtrip_refuted_before_fix.
 Print Assumptions C06_wide_accepted_after_fix.
 Print Assumptions C06_recursion_balanced_refuted_before_fix.
 Print Assumptions C06_value_sound_refuted_before_fix.
+Print Assumptions C06_position_methods_first_token.
+Print Assumptions C06_front_end_total.
+Print Assumptions C06_parse_document_bytes_total.
+Print Assumptions C06_parse_document_bytes_never_panics.
+Print Assumptions C06_parse_bytes_accepts_exactly.
+Print Assumptions C06_parse_bytes_rejects_rest.
+Print Assumptions C06_parse_bytes_tree.
+Print Assumptions C06_parse_bytes_pos_injective.
+Print Assumptions C06_parse_bytes_errors_inside_text.
+Print Assumptions C06_parse_bytes_error_located.
+Print Assumptions C06_parse_bytes_layout_insensitive.
+Print Assumptions C06_parse_bytes_same_tokens_same_tree.
+Print Assumptions C06_parse_value_bytes_total.
+Print Assumptions C06_parse_value_bytes_accepts_exactly.
+Print Assumptions C06_parse_value_bytes_errors_inside_text.
